@@ -12,7 +12,7 @@ CONSTANTS Depth,    \* nesting depth of the enumerated hints
           Emit
 
 IntH == HCls("int")  StrH == HCls("str")  NoneH == HCls("NoneType")
-Leaves == { IntH, StrH, HAny, HLit(<<i1, sa>>), HCls("A") }
+Leaves == { IntH, StrH, HAny, HLit(<<i1, sa>>), HCls("A"), HRec(IntH), HRec(StrH) }
 Wrap(h) == { HSeq("list", h), HSeq("tuple", h), HSeq("Sequence", h), HReit("Collection", h), HReit("frozenset", h),
              HReit("deque", h), HQuasi("Iterable", h), HMap("dict", StrH, h), HMap("Mapping", h, IntH),
              HTupF(<<IntH, h>>), HTupF(<<h, StrH>>), HUnion(<<h, NoneH>>), HUnion(<<StrH, h>>) }
@@ -20,7 +20,8 @@ RECURSIVE HintsAt(_)
 HintsAt(d) == IF d = 0 THEN Leaves ELSE UNION { Wrap(h) : h \in HintsAt(d - 1) }
 \* nested unions of unions add nothing new structurally beyond depth 1: drop union-of-union chains
 Interesting(h) == ~(h.k = "union" /\ \E i \in DOMAIN h.a : h.a[i].k = "union")
-HintSet == { h \in HintsAt(Depth) : Interesting(h) }
+RecHints == { HRec(IntH), HRec(StrH), HRec(HUnion(<<IntH, NoneH>>)), HRec(HCls("A")) }
+HintSet == { h \in HintsAt(Depth) : Interesting(h) } \cup RecHints
 HintSeq == TLCEval(SetToSeq(HintSet))
 NHint == TLCEval(Len(HintSeq))
 
@@ -32,6 +33,7 @@ ClsFor(h) == CASE h.s = "list" -> {"list"} [] h.s = "tuple" -> {"tuple"} [] h.s 
                [] h.s = "deque" -> {"deque"} [] h.s = "Iterable" -> {"list", "UColl"} [] OTHER -> {"list"}
 AnAtomNot(h) == IF ~Sat(h, none) THEN none ELSE IF ~Sat(h, f2) THEN f2 ELSE cj
 
+BadAtomFor(h) == { y \in {none, f2, cj} : MustReject(h, y) }
 RECURSIVE Good(_), Near(_)
 SeqOver(S, n) == UNION { [1..k -> S] : k \in 0..n }
 Good(h) ==
@@ -46,6 +48,12 @@ Good(h) ==
          { Cont(c, s) : c \in ClsFor(h),
                         s \in { t \in SeqOver(g, L) : Len(t) \in {0, 1, L} /\ (h.s # "frozenset" \/ \A i, j \in DOMAIN t : i # j => ~PyEq(t[i], t[j])) } }
          \cup (IF h.k = "quasi" THEN { Iter("gen", <<>>), Iter("UIter", <<none>>) } ELSE {})
+    [] h.k = "rec" ->      \* conforming lists nested 1 .. 4 levels deep
+         LET c == Take(Good(h.a[1]), 1)
+             l1 == { Cont("list", <<y>>) : y \in c }   l2 == { Cont("list", <<y>>) : y \in l1 }
+             l3 == { Cont("list", <<y>>) : y \in l2 }   l4 == { Cont("list", <<y>>) : y \in l3 } IN
+         { Cont("list", <<>>) } \cup l1 \cup l2 \cup l3 \cup l4
+         \cup { Cont("list", <<y, z>>) : y \in c, z \in l3 } \cup { Cont("list", <<z, y>>) : y \in c, z \in l2 }
     [] h.k = "map" ->
          LET gk == Take({ y \in Good(h.a[1]) : Hashable(y) }, 2)  gv == Take(Good(h.a[2]), 2) IN
          { Map("dict", <<>>) } \cup { Map(c, <<KV(k1, v)>>) : c \in {"dict", "UMap"}, k1 \in gk, v \in gv }
@@ -72,6 +80,9 @@ Near(h) ==
          \cup { Cont(c, [i \in 1..k |-> y]) : c \in ClsFor(h), k \in (IF h.s = "frozenset" THEN {1} ELSE {1, L}), y \in b }
          \cup (IF h.s = "frozenset" THEN { Cont("frozenset", <<p[1], p[2]>>) : p \in { q \in g \X b : ~PyEq(q[1], q[2]) } }
                                        \cup { Cont("frozenset", <<p[2], p[1]>>) : p \in { q \in g \X b : ~PyEq(q[1], q[2]) } } ELSE {})
+    [] h.k = "rec" ->
+         { AnAtomNot(h), Cont("tuple", <<i1>>) } \cup { Cont("list", <<y>>) : y \in BadAtomFor(h.a[1]) }
+         \cup { Cont("list", <<y, y>>) : y \in BadAtomFor(h.a[1]) }
     [] h.k = "map" ->
          LET gk == Take({ y \in Good(h.a[1]) : Hashable(y) }, 1)  gv == Take(Good(h.a[2]), 1)
              bk == { y \in BadFor(h.a[1]) : Hashable(y) }  bv == BadFor(h.a[2]) IN
